@@ -198,7 +198,7 @@ def TDrawOK (ss : SymSet) (c : Nat) (d : GDraw) : Prop := d.slotT < wsum (ss.ter
 /-- the gene the constructor / mutation put at row `i`, column `c` of a genome of `rows` rows when
     the patch length is `pl`: the patch section are the last `pl` rows – ALL rows when `pl ≥ rows`
     (natural-number subtraction; `i_mep::mutation` treats an individual no longer than the patch
-    length of the environment it is given that way since fix 6e548ec) -/
+    length of the environment it is given that way since fix 936f9ad) -/
 def drawGene (ss : SymSet) (rows pl i c : Nat) (d : GDraw) : Gene :=
   if i < rows - pl then geneOfSym (ss.roulette c d) d else geneOfTerminal (ss.rouletteT c d) d
 
